@@ -66,8 +66,13 @@ pub fn run_l3(c: &Case, kinds: &[&str]) -> Result<L3Result, Outcome> {
     }
     if !out.compile_errors.is_empty() {
         // does the error point into harness-written test code, or into emitted code?
+        // The test functions are appended to the emitted files: an error at a line beyond the emitted
+        // text (or in the crate root) is in harness code. When the emitted text itself has no error,
+        // the driver -- written against the declared signatures -- does not fit what was emitted.
+        let emitted_lines = |file: &str| built.files.get(file).map(|t| t.lines().count());
+        let in_emitted = out.compile_errors.iter().any(|d| matches!(emitted_lines(&d.file), Some(n) if d.line <= n));
         let d = &out.compile_errors[0];
-        let in_test_code = d.rendered.contains("pv_test_") || d.rendered.contains("crate::rt::");
+        let in_test_code = !in_emitted || d.rendered.contains("pv_test_") || d.rendered.contains("crate::rt::");
         let summary = super::l2common::diag_summary(&out.compile_errors);
         if in_test_code {
             // e.g. a declared return type that the driver binds: a wrapper with a different signature lands here
